@@ -80,9 +80,16 @@ class Sched:
                 if not self.dead:
                     self._handoff()
 
-        th = threading.Thread(target=run, daemon=True)
-        st["th"] = th
-        th.start()
+        # the carrier thread itself needs the real primitives (Thread.start waits on an Event), also when
+        # spawn is called inside `with patched()` or from a running logical thread
+        saved = (threading.RLock, threading.Lock, threading.Condition)
+        threading.RLock, threading.Lock, threading.Condition = _REAL_RLOCK, _REAL_LOCK, _REAL_COND
+        try:
+            th = threading.Thread(target=run, daemon=True)
+            st["th"] = th
+            th.start()
+        finally:
+            threading.RLock, threading.Lock, threading.Condition = saved
 
     def _tracer(self, frame, event, arg):
         code = frame.f_code
@@ -351,15 +358,54 @@ class patched:
     inside keep working, trivially, outside a schedule)."""
 
     def __enter__(self):
+        self._saved = (threading.RLock, threading.Lock, threading.Condition)
         threading.RLock = CoopRLock
         threading.Lock = CoopLock
         threading.Condition = CoopCondition
         return self
 
     def __exit__(self, *a):
-        threading.RLock = _REAL_RLOCK
-        threading.Lock = _REAL_LOCK
-        threading.Condition = _REAL_COND
+        threading.RLock, threading.Lock, threading.Condition = self._saved
+
+
+# ---- cooperative stand-in for the futures executor --------------------------------------------
+def install_executor(sched, first_tid=9):
+    """Replace concurrent.futures.ThreadPoolExecutor.submit (the method basilisp's executor wraps) so that
+    every submitted work item becomes a *logical thread* of `sched` (tids first_tid, first_tid+1, ...) that
+    does what concurrent.futures.thread._WorkItem.run does on a real concurrent.futures.Future (whose
+    Condition is the cooperative one).  Works before sched.run() and from running logical threads.
+    Returns uninstall()."""
+    from concurrent.futures import _base
+    from concurrent.futures import thread as _cfthread
+    orig = _cfthread.ThreadPoolExecutor.submit
+    counter = [first_tid]
+
+    def submit(self, fn, /, *args, **kwargs):
+        with patched():
+            f = _base.Future()
+        tid = counter[0]
+        counter[0] += 1
+
+        def work():
+            if not f.set_running_or_notify_cancel():
+                return
+            try:
+                result = fn(*args, **kwargs)
+            except (StepLimit, Killed):
+                raise
+            except BaseException as exc:  # noqa
+                f.set_exception(exc)
+            else:
+                f.set_result(result)
+
+        sched.spawn(tid, work)
+        return f
+
+    _cfthread.ThreadPoolExecutor.submit = submit
+
+    def uninstall():
+        _cfthread.ThreadPoolExecutor.submit = orig
+    return uninstall
 
 
 def explore(make, targets, max_preempt=2, limit=100000, max_steps=4000, on_result=None, seed=0):
